@@ -327,8 +327,14 @@ class ScopeFn(ScopeBase):
     def __exit__(self, *args):
         self.defined.difference_update(self.nonlocal_vars.keys())
         for node in self.seen:
-            if node.name not in self.defined:
+            if node.name not in self.defined or (
+                # A class's variables aren't visible to the scopes
+                # nested in it, so their free names keep going up.
+                not (self.is_fn or isinstance(self, ScopeGen))
+                and getattr(node, "from_nested_scope", False)
+            ):
                 # pass unbound/nonlocal names up to parent scope
+                node.from_nested_scope = True
                 self.parent.access(node)
         return super().__exit__(*args)
 
@@ -360,7 +366,9 @@ class ScopeFn(ScopeBase):
         if root == "nonlocal":
             # toss all nonlocal names up to parent scope
             for i in range(len(node.names)):
-                self.parent.access(node, i)
+                ref = NodeRef(node, i)
+                ref.from_nested_scope = True
+                self.parent.access(ref)
 
 
 class ScopeGen(ScopeFn):
